@@ -16,7 +16,8 @@ DESIGN_REF = "6/C04"
 LEAN_MODULES = ["Clikit.Props.C04"]
 REQUIRED_THEOREMS = ["Clikit.Props.C04." + n for n in (
     "clampStatus_range", "status_range", "handler_once", "run_contained", "exception_reported", "status_zero_iff",
-    "escape_only_by_render", "attempt_status_le")]
+    "escape_only_by_render", "attempt_status_le", "run_escapes_iff", "run_contained_exact", "exception_reported_exact",
+    "attempt_calls", "conclude_calls")]
 TECHNIQUE = ("Lean 4 theorems on a model of ConsoleApplication.run/Command.handle whose status normalisation is regenerated "
              "from Command.handle on every run + exhaustive outcome x listener x verbosity table against the real run()")
 LEVEL_TEXT = ("Proved in Lean for ALL handler results, exceptions and pre-handle listener lists: the status is 0 iff the value "
@@ -24,7 +25,9 @@ LEVEL_TEXT = ("Proved in Lean for ALL handler results, exceptions and pre-handle
               "translated from Command.handle on every run, so `% 256` or a changed bound breaks the proof); if rendering the "
               "report does not fail nothing escapes run(), every Exception ends in status 1 with a report, KeyboardInterrupt "
               "in status 1; the handler is invoked at most once and exactly once iff resolution succeeded and no pre-handle "
-              "listener handled the event or failed; a failing renderer is the ONLY way to escape (C20 characterises it). "
+              "listener handled the event or failed; a failing renderer is the ONLY way to escape (C20 characterises it), and "
+              "nothing escapes EXACTLY when the report of the one exception reaching the except clause can be rendered "
+              "(run_escapes_iff; run_contained_exact / exception_reported_exact need the renderer to work on that exception only). "
               "The model is tied to the code by the complete outcome x listener x verbosity x resolution table through the "
               "real ConsoleApplication.run.")
 LEVEL_NOTE = ("Trusted: Lean kernel + standard axioms; the hand-written run model; tools/genparts/c04.py; harness (abstraction "
@@ -42,7 +45,10 @@ TRUSTED_BASE = [
     "harness/props/c04.py, harness/c04_handlers.py: outcome table, listeners, abstraction of Python values",
 ]
 ASSUMPTIONS = [
-    "rendering the error report does not fail (C20's subject; the correspondence runs the real renderer, so a failure shows up as an escaped exception)",
+    "rendering the error report does not fail (C20's subject) - needed only for the exception that reaches the except clause "
+    "(run_escapes_iff is an equivalence); not decidable inside the model (the renderer is a parameter) but checked on every "
+    "case: the model runs with a renderer that never fails against the REAL renderer, so a failure shows up as an escaped "
+    "exception = a model/implementation disagreement and an oracle violation",
     "KeyboardInterrupt needs no report; BaseExceptions other than KeyboardInterrupt are outside the quantifier",
 ]
 BATCH = 1000
